@@ -15,6 +15,7 @@ CONSTANTS
   ItemLimit = 64
   MaxSteps = 3
   Emit = FALSE
+  Randomised = FALSE
 SPECIFICATION Spec
 INVARIANT Refines
 INVARIANT Accounting
